@@ -12,7 +12,9 @@ Clauses and monitors
   consensus.*   th > 1/2: all and only; th <= 1/2: none below threshold, maximal, greedy by
                 decreasing frequency (ties: any order is accepted); spans every taxon once;
                 rooting state of the inputs; support of every node
-  summary.*     support (proportion / percentage / label with d decimals), length_mean/
+  summary.*     (routes: built at once; `+incremental`: half the trees, a look at consensus / MCCT /
+                summaries, then the other half)
+                support (proportion / percentage / label with d decimals), length_mean/
                 median/range/sd, age_mean/median/range/sd, set_edge_lengths in
                 {support, mean-length, median-length, mean-age, median-age}
   collapse.*    exactly the internal edges with frequency < th disappear; root-to-tip
@@ -255,7 +257,31 @@ def _summary(case):
                 ags.setdefault(s, []).append(v)
     tl = _tl(ns, trees)
     route = case["route"]
-    if route == "TreeArray":
+    if route in ("TreeArray+incremental", "SplitDistribution+incremental"):
+        # the collection is filled in two batches and looked at in between (a consensus tree, the
+        # maximum-credibility tree, a summary on a target): whatever was cached for the first batch
+        # must not show in the summary of the whole collection
+        h = max(1, len(trees) // 2)
+        if route.startswith("TreeArray"):
+            src = _tl(ns, trees[:h]).as_tree_array(ignore_node_ages=not ages)
+            sd0 = src.split_distribution
+        else:
+            src = _tl(ns, trees[:h]).split_distribution(ignore_node_ages=not ages)
+            sd0 = src
+        src.consensus_tree(min_freq=0.5)
+        if route.startswith("TreeArray"):
+            src.maximum_product_of_split_support_tree()
+        else:
+            src.summarize_splits_on_tree(K.build(case["trees"][0], ns, rooted=case["rooted"]))
+        sd0.split_edge_length_summaries
+        if ages:
+            sd0.split_node_age_summaries
+        for t in trees[h:]:
+            if route.startswith("TreeArray"):
+                src.add_tree(t)
+            else:
+                src.count_splits_on_tree(t)
+    elif route == "TreeArray":
         src = tl.as_tree_array(ignore_node_ages=not ages)
     else:
         src = tl.split_distribution(ignore_node_ages=not ages)
@@ -528,8 +554,10 @@ def eval_length_sample(sample):
     sets = list(SETTINGS) + (list(AGE_SETTINGS) if sample.get("ultrametric") else [])
     targets = list(sample["targets"])
     for j, st in enumerate(sets):
-        for route in ("TreeArray", "SplitDistribution"):
+        for route in ("TreeArray", "SplitDistribution", "TreeArray+incremental", "SplitDistribution+incremental"):
             if st.get("ages") and sample["rooted"] is not True:
+                continue
+            if route.endswith("+incremental") and len(sample["trees"]) < 2:
                 continue
             c = _base(sample)
             c.update(what="summary", route=route, settings=st, target="consensus", th=[0.5, GTH, 0.25][(i + j) % 3])
